@@ -162,7 +162,7 @@ func (s c16Scenario) group(switched bool, leaderEmpty bool) string {
 		return "collected-at-leader"
 	case s.expect() == "takeover":
 		return "follower-ahead"
-	case s.FKind == "collected":
+	case strings.HasPrefix(s.FKind, "collected"):
 		return "collected-at-leader"
 	}
 	return "joinable"
@@ -289,6 +289,48 @@ func c16Scenarios(tier string) []c16Scenario {
 					mk("other-id-snapshot", 2, 500, c16Base+n, 100)    // other history with a snapshot at the leader's newest offset
 					mk("other-id-collected", 2, 0, c16Base-300, 200)   // other history, ends before the leader's oldest byte
 				}
+			}
+		}
+	}
+	// distance between the two newest offsets around the follower's "gap too large" constant
+	// (preSync: 10 MiB), in both directions. The caches hold a few bytes each: only the offsets
+	// are far apart (both back ends take any int64 start offset; nothing large is written).
+	//   ahead, same id, by any amount  -> the follower is offered leadership, its cache stays intact
+	//   behind, same id (its newest byte is below the leader's oldest retained one) -> not
+	//       joinable: whether the follower discards at once (gap above the constant) or after the
+	//       leader answered from its own position, it must end as a faithful copy
+	//   other id at either distance -> discarded, faithful copy
+	const gapConst = int64(10 * 1024 * 1024)
+	for _, b := range bes {
+		for _, lk := range []string{"snap+log", "log", "empty"} {
+			for _, d := range []int64{-1, 0, 1} {
+				dn := map[int64]string{-1: "just-below-10MiB", 0: "exactly-10MiB", 1: "just-above-10MiB"}[d]
+				side := func(be string, hist int, snap, left, ln int64, reopen bool) c16Side {
+					return c16Side{Backend: be, Hist: hist, Snap: snap, Left: left, Len: ln, Chunk: 1 << 20, Seg: 1 << 20, Reopen: reopen}
+				}
+				if lk == "empty" {
+					// the leader reports -1: distance = follower's newest offset + 1
+					L := side(b.l, 1, 0, c16Base, -1, false)
+					fr := gapConst + d - 1
+					out = append(out, c16Scenario{LKind: lk, FKind: "ahead-" + dn, Leader: L, Follower: side(b.f, 1, 0, fr-8, 8, b.reopen)})
+					continue
+				}
+				snap := int64(0)
+				if lk == "snap+log" {
+					snap = 700
+				}
+				// follower beyond the leader: leader at the usual offsets
+				L := side(b.l, 1, snap, c16Base, 100, false)
+				fr := L.right() + gapConst + d
+				out = append(out,
+					c16Scenario{LKind: lk, FKind: "ahead-" + dn, Leader: L, Follower: side(b.f, 1, 0, fr-8, 8, b.reopen), Extra: 5000},
+					c16Scenario{LKind: lk, FKind: "other-id-ahead-" + dn, Leader: L, Follower: side(b.f, 2, 0, fr-8, 8, b.reopen), Extra: 5000})
+				// follower behind the leader: leader at far offsets
+				L = side(b.l, 1, snap, c16Base+gapConst+5000, 100, false)
+				fr = L.right() - gapConst - d
+				out = append(out,
+					c16Scenario{LKind: lk, FKind: "collected-behind-" + dn, Leader: L, Follower: side(b.f, 1, 0, fr-8, 8, b.reopen), Extra: 5000},
+					c16Scenario{LKind: lk, FKind: "other-id-behind-" + dn, Leader: L, Follower: side(b.f, 2, 0, fr-8, 8, b.reopen), Extra: 5000})
 			}
 		}
 	}
